@@ -58,3 +58,8 @@ claim("C15",
  "Trusted: go/types; K-embed compares siblings with each other (majority of three per package), so a slip copied into all three is invisible to it.",
  "static analysis: loop-carried assignment lint, sibling feature-vector comparison, type-driven argument check, branch-exclusivity check",
  "DESIGN.md §4 C15")
+claim("C16",
+ "Static decision of the history-independence clause and of structural necessary conditions of the inverse property: registry lookups under keys derived from reflect.Type.Name() verify the composer's type, nothing is registered under an empty name, loops over struct fields visit every index, the per-element target of the recursive recompose call is fresh in each iteration, float64 values are formatted with 64 bits. Inverse-ness of Decompose/Recompose and Marshal/Unmarshal for arbitrary types is not decidable statically and is not claimed.",
+ "Trusted: go/types; the lossy-key rule is specific to package alt's map[string]*composer registries.",
+ "static analysis: def-use tracking of lossy keys with required identity comparison; loop-bound and loop-freshness lints; type-driven argument check",
+ "DESIGN.md §4 C16")
